@@ -393,7 +393,7 @@ theorem view_term (udx : Bool) (f : Str) (ts : List Tok) : view udx (.term f ts)
 
 mutual
 theorem run_evs (udx : Bool) (ind : Option Nat) (lvl : Nat) (t : Node) (hwf : WF t = true)
-    (p : Node) (hp : p.isTerm = false) (stack : List Node) (more : List Ev) :
+    (p : Node) (_hp : p.isTerm = false) (stack : List Node) (more : List Ev) :
     run (evs udx ind lvl t ++ more) (p :: stack) = run more (addDtr p (view udx t) :: stack) := by
   cases t with
   | term f ts =>
@@ -475,5 +475,488 @@ theorem innerDtrs_eraseHTL (ind : Option Nat) (lvl : Nat) (ds : List Node) :
   | cons d ds' =>
     simp [eraseHTL, innerDtrs, inner_eraseHT ind (lvl + 1) d, innerDtrs_eraseHTL ind lvl ds']
 end
+
+/-! ### the scanner on serialized text (discharges `hscan`) -/
+
+/-- what follows cannot continue a `{token}` -/
+def StopsAtom (r : Str) : Prop := ∀ c r', r = c :: r' → isAtomCh c = false
+
+theorem stop_nil : StopsAtom [] := by intro c r h; cases h
+theorem stop_space (r : Str) : StopsAtom (' ' :: r) := by intro c r' h; cases h; exact isAtomCh_space
+theorem stop_lparen (r : Str) : StopsAtom ('(' :: r) := by intro c r' h; cases h; exact isAtomCh_lparen
+theorem stop_rparen (r : Str) : StopsAtom (')' :: r) := by intro c r' h; cases h; exact isAtomCh_rparen
+
+theorem ws_not_atom (c : Char) (h : isWs c = true) : isAtomCh c = false := by
+  simp [isAtomCh, h]
+
+theorem atom_not_ws (c : Char) (h : isAtomCh c = true) : isWs c = false := by
+  simp only [isAtomCh, Bool.and_eq_true, Bool.not_eq_true'] at h
+  exact h.1.1
+
+theorem stop_ws_append (w r : Str) (hw : w.all isWs = true) (hr : StopsAtom r) : StopsAtom (w ++ r) := by
+  cases w with
+  | nil => exact hr
+  | cons x w' =>
+    intro c r' h
+    simp only [List.cons_append, List.cons.injEq] at h
+    simp only [List.all_cons, Bool.and_eq_true] at hw
+    rw [← h.1]; exact ws_not_atom x hw.1
+
+theorem takeAtom_item (a r : Str) (ha : IsAtom a = true) (hr : StopsAtom r) :
+    takeAtom (a ++ r) = some (a, r) := by
+  simp only [IsAtom, Bool.and_eq_true, Bool.not_eq_true', List.isEmpty_eq_false_iff] at ha
+  exact takeAtom_append a r ha.2 ha.1 hr
+
+theorem skipWs_atom (a r : Str) (ha : IsAtom a = true) : skipWs (a ++ r) = a ++ r := by
+  simp only [IsAtom, Bool.and_eq_true, Bool.not_eq_true', List.isEmpty_eq_false_iff] at ha
+  cases a with
+  | nil => exact absurd rfl ha.1
+  | cons c cs =>
+    have := ha.2
+    simp only [List.all_cons, Bool.and_eq_true] at this
+    exact skipWs_nonws c _ (atom_not_ws c this.1)
+
+theorem ws1_space (x : Str) : ws1 (' ' :: x) = some (skipWs x) := by
+  simp [ws1, isWs_space]
+
+theorem takeString_nonquote (a r : Str) (hne : a ≠ []) (hq : a.head? ≠ some '"') :
+    takeString (a ++ r) = none := by
+  cases a with
+  | nil => exact absurd rfl hne
+  | cons c cs =>
+    have hc : c ≠ '"' := by intro h; subst h; simp at hq
+    simp only [List.cons_append]
+    unfold takeString
+    split
+    · rename_i heq; cases heq; exact absurd rfl hc
+    · rfl
+
+theorem takeAtom_lparen (r : Str) : takeAtom ('(' :: r) = none := by
+  simp [takeAtom, List.takeWhile_cons, isAtomCh_lparen]
+theorem takeAtom_rparen (r : Str) : takeAtom (')' :: r) = none := by
+  simp [takeAtom, List.takeWhile_cons, isAtomCh_rparen]
+theorem isWs_lparen : isWs '(' = false := by decide
+theorem isWs_rparen : isWs ')' = false := by decide
+
+theorem alt1Tail_items (a3 a4 a5 w rest : Str) (h3 : IsAtom a3 = true) (h4 : IsAtom a4 = true)
+    (h5 : IsAtom a5 = true) (hw : w.all isWs = true) :
+    alt1Tail (' ' :: (a3 ++ ' ' :: (a4 ++ ' ' :: (a5 ++ (w ++ '(' :: rest)))))
+      = some (a3, a4, a5, rest) := by
+  have hs : skipWs (w ++ '(' :: rest) = '(' :: rest := by
+    rw [skipWs_ws_append w _ hw, skipWs_nonws _ _ isWs_lparen]
+  simp only [alt1Tail, ws1_space, skipWs_atom _ _ h3, skipWs_atom _ _ h4, skipWs_atom _ _ h5,
+    takeAtom_item _ _ h3 (stop_space _), takeAtom_item _ _ h4 (stop_space _),
+    takeAtom_item _ _ h5 (stop_ws_append w _ hw (stop_lparen rest)), hs]
+
+theorem alt1_items (a1 a2 a3 a4 a5 w rest : Str) (h1 : IsAtom a1 = true) (h2 : IsAtom a2 = true)
+    (hq : a2.head? ≠ some '"') (h3 : IsAtom a3 = true) (h4 : IsAtom a4 = true)
+    (h5 : IsAtom a5 = true) (hw : w.all isWs = true) :
+    alt1 (a1 ++ ' ' :: (a2 ++ ' ' :: (a3 ++ ' ' :: (a4 ++ ' ' :: (a5 ++ (w ++ '(' :: rest))))))
+      = some (Ev.node a1 a2 a3 a4 a5, rest) := by
+  have hne : a2 ≠ [] := by
+    simp only [IsAtom, Bool.and_eq_true, Bool.not_eq_true', List.isEmpty_eq_false_iff] at h2
+    exact h2.1
+  simp only [alt1, skipWs_atom _ _ h1, takeAtom_item _ _ h1 (stop_space _), ws1_space,
+    skipWs_atom _ _ h2, takeString_nonquote a2 _ hne hq, takeAtom_item _ _ h2 (stop_space _),
+    alt1Tail_items a3 a4 a5 w rest h3 h4 h5 hw]
+
+theorem alt3_nonquote (a r : Str) (ha : IsAtom a = true) (hq : a.head? ≠ some '"') :
+    alt3 (a ++ r) = none := by
+  have hne : a ≠ [] := by
+    simp only [IsAtom, Bool.and_eq_true, Bool.not_eq_true', List.isEmpty_eq_false_iff] at ha
+    exact ha.1
+  simp only [alt3, skipWs_atom _ _ ha, takeString_nonquote a r hne hq]
+
+/-- node header: the terminal alternative fails, the regular-node alternative matches through `(` -/
+theorem matchAt_header (a1 a2 a3 a4 a5 w rest : Str) (h1 : IsAtom a1 = true) (hq1 : a1.head? ≠ some '"')
+    (h2 : IsAtom a2 = true) (hq : a2.head? ≠ some '"') (h3 : IsAtom a3 = true)
+    (h4 : IsAtom a4 = true) (h5 : IsAtom a5 = true) (hw : w.all isWs = true) :
+    matchAt (a1 ++ ' ' :: (a2 ++ ' ' :: (a3 ++ ' ' :: (a4 ++ ' ' :: (a5 ++ (w ++ '(' :: rest))))))
+      = some (Ev.node a1 a2 a3 a4 a5, rest) := by
+  simp only [matchAt, alt3_nonquote a1 _ h1 hq1, alt1_items a1 a2 a3 a4 a5 w rest h1 h2 hq h3 h4 h5 hw]
+
+/-- root symbol: terminal, node and `)` alternatives fail, the root alternative matches through `(` -/
+theorem matchAt_root (e w rest : Str) (he : IsAtom e = true) (hq : e.head? ≠ some '"')
+    (hw : w.all isWs = true) (hwne : w ≠ []) :
+    matchAt (e ++ (w ++ '(' :: rest)) = some (Ev.root e, rest) := by
+  have hs : skipWs (w ++ '(' :: rest) = '(' :: rest := by
+    rw [skipWs_ws_append w _ hw, skipWs_nonws _ _ isWs_lparen]
+  have hstop := stop_ws_append w _ hw (stop_lparen rest)
+  have hne : e ≠ [] := by
+    simp only [IsAtom, Bool.and_eq_true, Bool.not_eq_true', List.isEmpty_eq_false_iff] at he
+    exact he.1
+  have h1 : alt1 (e ++ (w ++ '(' :: rest)) = none := by
+    have hws1 : ws1 (w ++ '(' :: rest) = some ('(' :: rest) := by
+      rw [ws1_ws_append w _ hw hwne, skipWs_nonws _ _ isWs_lparen]
+    have hts : takeString ('(' :: rest) = none := rfl
+    simp only [alt1, skipWs_atom _ _ he, takeAtom_item _ _ he hstop, hws1, hts, takeAtom_lparen]
+  have h2 : alt2 (e ++ (w ++ '(' :: rest)) = none := by
+    simp only [alt2, skipWs_atom _ _ he]
+    cases e with
+    | nil => exact absurd rfl hne
+    | cons c cs =>
+      simp only [IsAtom, Bool.and_eq_true, List.all_cons] at he
+      have hc : c ≠ ')' := by
+        intro h; subst h
+        have := he.2.1
+        rw [isAtomCh_rparen] at this; cases this
+      simp only [List.cons_append]
+      split
+      · rename_i heq; cases heq; exact absurd rfl hc
+      · rfl
+  simp only [matchAt, alt3_nonquote e _ he hq, h1, h2, alt4, skipWs_atom _ _ he,
+    takeAtom_item _ _ he hstop, hs]
+
+/-- branch end -/
+theorem matchAt_done (more : Str) : matchAt (')' :: more) = some (Ev.done, more) := by
+  have h3 : alt3 (')' :: more) = none := by
+    simp only [alt3, skipWs_nonws _ _ isWs_rparen]; rfl
+  have h1 : alt1 (')' :: more) = none := by
+    simp only [alt1, skipWs_nonws _ _ isWs_rparen, takeAtom_rparen]
+  simp only [matchAt, h3, h1, alt2, skipWs_nonws _ _ isWs_rparen]
+
+/-- white space and the `(` before a non-first daughter match nothing -/
+theorem matchAt_ws_lparen (w rest : Str) (hw : w.all isWs = true) : matchAt (w ++ '(' :: rest) = none := by
+  have hs : skipWs (w ++ '(' :: rest) = '(' :: rest := by
+    rw [skipWs_ws_append w _ hw, skipWs_nonws _ _ isWs_lparen]
+  have hts : takeString ('(' :: rest) = none := rfl
+  simp only [matchAt, alt3, alt1, alt2, alt4, hs, hts, takeAtom_lparen]
+  rfl
+
+theorem scan_skip (w rest : Str) (hw : w.all isWs = true) : scan (w ++ '(' :: rest) = scan rest := by
+  induction w with
+  | nil =>
+    simp only [List.nil_append]
+    have hm := matchAt_ws_lparen [] rest (by rfl)
+    simp only [List.nil_append] at hm
+    rw [scan.eq_def]
+    simp only [hm]
+  | cons c w ih =>
+    simp only [List.all_cons, Bool.and_eq_true] at hw
+    have hm := matchAt_ws_lparen (c :: w) rest (by simp [hw.1, hw.2])
+    simp only [List.cons_append] at hm ⊢
+    rw [scan.eq_def]
+    simp only [hm]
+    exact ih hw.2
+
+theorem scan_step (pre rest : Str) (ev : Ev) (hne : pre ≠ [])
+    (h : matchAt (pre ++ rest) = some (ev, rest)) : scan (pre ++ rest) = ev :: scan rest := by
+  cases pre with
+  | nil => exact absurd rfl hne
+  | cons c cs =>
+    simp only [List.cons_append] at h ⊢
+    rw [scan.eq_def]
+    simp only [h]
+    rw [if_pos (by simp [List.length_append]; omega)]
+
+/-! #### terminals -/
+
+theorem takeString_valid' (b r : Str) (h : ValidBody b = true) :
+    takeString ('"' :: (b ++ '"' :: r)) = some (b, r) := by
+  have := takeString_valid b r h
+  simpa using this
+
+theorem digitStop_space (x : Str) : ∀ c r', (' ' :: x) = c :: r' → isAsciiDigit c = false := by
+  intro c r' h; cases h; exact isDigit_space
+
+theorem takeDigits_quote (r : Str) : takeDigits ('"' :: r) = none := by
+  simp [takeDigits, List.takeWhile_cons, isAsciiDigit]
+
+theorem natDigits_isAtom (n : Nat) : IsAtom (natDigits n) = true := by
+  simp only [IsAtom, Bool.and_eq_true, Bool.not_eq_true', List.isEmpty_eq_false_iff]
+  refine ⟨natDigits_ne_nil n, ?_⟩
+  rw [List.all_eq_true]
+  intro c hc
+  have := natDigits_all n
+  rw [List.all_eq_true] at this
+  exact digit_isAtomCh c (this c hc)
+
+theorem skipWs_natDigits (n : Nat) (r : Str) : skipWs (natDigits n ++ r) = natDigits n ++ r :=
+  skipWs_atom _ _ (natDigits_isAtom n)
+
+theorem tokText_eq (t : Tok) (r : Str) :
+    tokText t ++ r = natDigits t.id ++ (' ' :: ('"' :: (t.tfs ++ '"' :: r))) := by
+  simp [tokText]
+
+theorem tokIter_tok (d : Str) (t : Tok) (r : Str) (hd : d.all isWs = true) (hne : d ≠ [])
+    (hv : ValidBody t.tfs = true) : tokIter (d ++ (tokText t ++ r)) = some r := by
+  rw [tokText_eq]
+  simp only [tokIter, ws1_ws_append d _ hd hne, skipWs_natDigits,
+    takeAtom_item _ _ (natDigits_isAtom t.id) (stop_space _), ws1_space,
+    skipWs_nonws _ _ isWs_quote, takeString_valid' _ _ hv]
+
+theorem lkbPart_tok (d : Str) (t : Tok) (r : Str) (hd : d.all isWs = true) (hne : d ≠ []) :
+    lkbPart (d ++ (tokText t ++ r)) = none := by
+  rw [tokText_eq]
+  simp only [lkbPart, ws1_ws_append d _ hd hne, skipWs_natDigits,
+    takeDigits_append _ _ (natDigits_all t.id) (natDigits_ne_nil t.id) (digitStop_space _), ws1_space,
+    skipWs_nonws _ _ isWs_quote, takeDigits_quote]
+
+theorem ws1_rparen (r : Str) : ws1 (')' :: r) = none := by
+  simp [ws1, isWs_rparen]
+
+theorem toksText_cons (d : Str) (t : Tok) (ts : List Tok) (r : Str) :
+    toksText d (t :: ts) ++ r = d ++ (tokText t ++ (toksText d ts ++ r)) := by
+  simp [toksText]
+
+theorem tokGroup_toks (d : Str) (ts : List Tok) (more : Str) (hd : d.all isWs = true) (hne : d ≠ [])
+    (hv : ts.all (fun t => ValidBody t.tfs) = true) :
+    ∀ f, ts.length ≤ f → tokGroup f (toksText d ts ++ ')' :: more) = ')' :: more := by
+  induction ts with
+  | nil =>
+    intro f _
+    simp only [toksText, List.flatMap_nil, List.nil_append]
+    cases f with
+    | zero => rfl
+    | succ f => simp only [tokGroup, tokIter, ws1_rparen]
+  | cons t ts ih =>
+    intro f hf
+    simp only [List.all_cons, Bool.and_eq_true] at hv
+    cases f with
+    | zero => simp at hf
+    | succ f =>
+      rw [toksText_cons]
+      simp only [tokGroup, tokIter_tok d t _ hd hne hv.1]
+      rw [if_pos (by simp [List.length_append]; cases d with
+        | nil => exact absurd rfl hne
+        | cons _ _ => simp; omega)]
+      exact ih hv.2 f (by simp at hf; omega)
+
+theorem toksText_length (d : Str) (ts : List Tok) (hne : d ≠ []) : ts.length ≤ (toksText d ts).length := by
+  induction ts with
+  | nil => simp
+  | cons t ts ih =>
+    have : toksText d (t :: ts) = d ++ (tokText t ++ toksText d ts) := by simp [toksText]
+    rw [this]
+    cases d with
+    | nil => exact absurd rfl hne
+    | cons _ _ => simp [List.length_append]; omega
+
+/-- terminal: the first alternative matches `"form" tokens… )` and delivers the raw token text -/
+theorem matchAt_term (d f : Str) (ts : List Tok) (more : Str) (hd : d.all isWs = true) (hne : d ≠ [])
+    (hf : ValidBody f = true) (hv : ts.all (fun t => ValidBody t.tfs) = true) :
+    matchAt ('"' :: (f ++ '"' :: (toksText d ts ++ ')' :: more)))
+      = some (Ev.term f (toksText d ts), more) := by
+  have hlkb : lkbPart (toksText d ts ++ ')' :: more) = none := by
+    cases ts with
+    | nil => simp only [toksText, List.flatMap_nil, List.nil_append, lkbPart, ws1_rparen]
+    | cons t ts' => rw [toksText_cons]; exact lkbPart_tok d t _ hd hne
+  have hgrp := tokGroup_toks d ts more hd hne hv (toksText d ts ++ ')' :: more).length
+    (by simp only [List.length_append]; have := toksText_length d ts hne; omega)
+  have hclose : closeParen (')' :: more) = some more := by
+    simp only [closeParen, skipWs_nonws _ _ isWs_rparen]
+  have htake : (toksText d ts ++ ')' :: more).take
+      ((toksText d ts ++ ')' :: more).length - (')' :: more).length) = toksText d ts := by
+    simp [List.length_append]
+  simp only [matchAt, alt3, skipWs_nonws _ _ isWs_quote, takeString_valid' _ _ hf, hlkb, hgrp, hclose, htake]
+
+/-! #### printed integers and decorated entities are `{token}`s -/
+
+theorem isAtomCh_minus : isAtomCh '-' = true := by decide
+theorem isAtomCh_caret : isAtomCh '^' = true := by decide
+theorem isAtomCh_at : isAtomCh '@' = true := by decide
+
+theorem intText_isAtom (i : Int) : IsAtom (intText i) = true := by
+  cases i with
+  | ofNat n => exact natDigits_isAtom n
+  | negSucc n =>
+    have := natDigits_isAtom (n + 1)
+    simp only [IsAtom, Bool.and_eq_true, Bool.not_eq_true'] at this ⊢
+    simp [intText, isAtomCh_minus, this.2]
+
+theorem intText_head (i : Int) : (intText i).head? ≠ some '"' := by
+  cases i with
+  | ofNat n =>
+    simp only [intText]
+    cases h : natDigits n with
+    | nil => simp
+    | cons c cs =>
+      have := natDigits_head n c cs h
+      simp only [List.head?_cons, ne_eq, Option.some.injEq]
+      intro e; subst e; revert this; decide
+  | negSucc n => simp [intText]
+
+theorem isAtom_append (a b : Str) (ha : IsAtom a = true) (hb : b.all isAtomCh = true) :
+    IsAtom (a ++ b) = true := by
+  simp only [IsAtom, Bool.and_eq_true, Bool.not_eq_true', List.isEmpty_eq_false_iff] at ha ⊢
+  refine ⟨by simp [ha.1], ?_⟩
+  rw [List.all_append, ha.2, hb]; rfl
+
+theorem decorate_isAtom (udx : Bool) (e : Str) (h : Bool) (ty : Option Str)
+    (he : EntityOK e = true) (hty : TypeOK ty = true) :
+    IsAtom (decorate udx e h ty) = true ∧ (decorate udx e h ty).head? ≠ some '"' := by
+  simp only [EntityOK, Bool.and_eq_true, Bool.not_eq_true', bne_iff_ne, ne_eq] at he
+  obtain ⟨⟨⟨hat, _⟩, _⟩, hq⟩ := he
+  cases udx with
+  | false => simp only [decorate, Bool.false_eq_true, if_false]; exact ⟨hat, hq⟩
+  | true =>
+    rw [decorate_true]
+    have hsuf : (typeSuffix ty).all isAtomCh = true := by
+      rcases typeSuffix_cases ty hty with ⟨h1, _⟩ | ⟨s, _, h2, h3⟩
+      · rw [h1]; rfl
+      · rw [h2]; subst h3
+        simp only [TypeOK, IsAtom, Bool.and_eq_true] at hty
+        simp [isAtomCh_at, hty.2]
+    have hbase : IsAtom (if h = true then '^' :: e else e) = true
+        ∧ (if h = true then '^' :: e else e).head? ≠ some '"' := by
+      cases h with
+      | false => exact ⟨hat, hq⟩
+      | true =>
+        simp only [IsAtom, Bool.and_eq_true, Bool.not_eq_true'] at hat
+        simp [IsAtom, isAtomCh_caret, hat.2]
+    refine ⟨isAtom_append _ _ hbase.1 hsuf, ?_⟩
+    have hne : (if h = true then '^' :: e else e) ≠ [] := by
+      have := hbase.1
+      simp only [IsAtom, Bool.and_eq_true, Bool.not_eq_true', List.isEmpty_eq_false_iff] at this
+      exact this.1
+    cases hb : (if h = true then '^' :: e else e) with
+    | nil => exact absurd hb hne
+    | cons c cs =>
+      have := hbase.2
+      rw [hb] at this
+      simpa using this
+
+/-! #### the induction over the tree -/
+
+theorem header_append (udx : Bool) (i : Int) (e sc : Str) (st en : Int) (h : Bool) (ty : Option Str)
+    (r : Str) :
+    header udx i e sc st en h ty ++ r
+      = intText i ++ ' ' :: (decorate udx e h ty ++ ' ' :: (sc ++ ' ' :: (intText st ++ ' ' ::
+          (intText en ++ r)))) := by
+  simp [header]
+
+mutual
+theorem scan_inner (udx : Bool) (ind : Option Nat) (lvl : Nat) (t : Node) (hwf : WF t = true)
+    (more : Str) : scan (inner udx ind lvl t ++ more) = evs udx ind lvl t ++ scan more := by
+  cases t with
+  | term f ts =>
+    simp only [WF, Bool.and_eq_true] at hwf
+    have e : inner udx ind lvl (.term f ts) ++ more
+        = ('"' :: f ++ '"' :: toksText (delim ind lvl) ts ++ [')']) ++ more := by
+      simp [inner, termInner, toksText]
+    have e2 : ('"' :: f ++ '"' :: toksText (delim ind lvl) ts ++ [')']) ++ more
+        = ('"' :: f ++ '"' :: (toksText (delim ind lvl) ts ++ [')'])) ++ more := by simp
+    rw [e, e2, scan_step _ more (Ev.term f (toksText (delim ind lvl) ts)) (by simp) (by
+      have := matchAt_term (delim ind lvl) f ts more (delim_all_ws ind lvl) (delim_ne_nil ind lvl)
+        hwf.1 hwf.2
+      simpa using this)]
+    simp [evs]
+  | node i e sc st en h ty ds =>
+    simp only [WF, Bool.and_eq_true, beq_iff_eq, Bool.not_eq_true', List.isEmpty_eq_false_iff] at hwf
+    obtain ⟨⟨⟨⟨⟨he, hsc⟩, _⟩, hty⟩, hne⟩, hds⟩ := hwf
+    cases ds with
+    | nil => exact absurd rfl hne
+    | cons d ds' =>
+      simp only [WFL, Bool.and_eq_true] at hds
+      obtain ⟨hdec, hdecq⟩ := decorate_isAtom udx e h ty he hty
+      -- text = header ++ (delim ++ '(' :: rest), rest = inner d ++ innerDtrs ds' ++ ')' :: more
+      have e1 : inner udx ind lvl (.node i e sc st en h ty (d :: ds')) ++ more
+          = (header udx i e sc st en h ty ++ (delim ind lvl ++ ['('])) ++
+              (inner udx ind (lvl + 1) d ++ (innerDtrs udx ind lvl ds' ++ ')' :: more)) := by
+        simp [inner, innerDtrs]
+      have e2 : ∀ X : Str, (header udx i e sc st en h ty ++ (delim ind lvl ++ ['('])) ++ X
+          = intText i ++ ' ' :: (decorate udx e h ty ++ ' ' :: (sc ++ ' ' :: (intText st ++ ' ' ::
+              (intText en ++ (delim ind lvl ++ '(' :: X))))) := by
+        intro X
+        rw [List.append_assoc, header_append]
+        simp
+      rw [e1, scan_step _ _ (Ev.node (intText i) (decorate udx e h ty) sc (intText st) (intText en))
+        (by simp [delim_ne_nil]) (by
+          rw [e2]
+          exact matchAt_header (intText i) (decorate udx e h ty) sc (intText st) (intText en)
+            (delim ind lvl) _ (intText_isAtom i) (intText_head i) hdec hdecq hsc (intText_isAtom st)
+            (intText_isAtom en) (delim_all_ws ind lvl))]
+      rw [scan_inner udx ind (lvl + 1) d hds.1, scan_innerDtrs udx ind lvl ds' hds.2,
+        show (')' :: more) = [')'] ++ more from rfl, scan_step [')'] more Ev.done (by simp) (matchAt_done more)]
+      simp [evs, evsL]
+  | root e ds =>
+    simp only [WF, Bool.and_eq_true, Bool.not_eq_true', List.isEmpty_eq_false_iff] at hwf
+    obtain ⟨⟨he, hne⟩, hds⟩ := hwf
+    cases ds with
+    | nil => exact absurd rfl hne
+    | cons d ds' =>
+      simp only [WFL, Bool.and_eq_true] at hds
+      have he' := he
+      simp only [EntityOK, Bool.and_eq_true, Bool.not_eq_true', bne_iff_ne, ne_eq] at he'
+      obtain ⟨⟨⟨hat, _⟩, _⟩, hq⟩ := he'
+      have e1 : inner udx ind lvl (.root e (d :: ds')) ++ more
+          = (e ++ (delim ind lvl ++ ['('])) ++
+              (inner udx ind (lvl + 1) d ++ (innerDtrs udx ind lvl ds' ++ ')' :: more)) := by
+        simp [inner, innerDtrs]
+      rw [e1, scan_step _ _ (Ev.root e) (by
+          simp only [IsAtom, Bool.and_eq_true, Bool.not_eq_true', List.isEmpty_eq_false_iff] at hat
+          simp [hat.1]) (by
+          have hm := matchAt_root e (delim ind lvl)
+            (inner udx ind (lvl + 1) d ++ (innerDtrs udx ind lvl ds' ++ ')' :: more)) hat hq
+            (delim_all_ws ind lvl) (delim_ne_nil ind lvl)
+          simpa using hm)]
+      rw [scan_inner udx ind (lvl + 1) d hds.1, scan_innerDtrs udx ind lvl ds' hds.2,
+        show (')' :: more) = [')'] ++ more from rfl, scan_step [')'] more Ev.done (by simp) (matchAt_done more)]
+      simp [evs, evsL]
+theorem scan_innerDtrs (udx : Bool) (ind : Option Nat) (lvl : Nat) (ds : List Node)
+    (hwf : WFL ds = true) (more : Str) :
+    scan (innerDtrs udx ind lvl ds ++ more) = evsL udx ind lvl ds ++ scan more := by
+  cases ds with
+  | nil => simp [innerDtrs, evsL]
+  | cons d ds' =>
+    simp only [WFL, Bool.and_eq_true] at hwf
+    have e1 : innerDtrs udx ind lvl (d :: ds') ++ more
+        = delim ind lvl ++ '(' :: (inner udx ind (lvl + 1) d ++ (innerDtrs udx ind lvl ds' ++ more)) := by
+      simp [innerDtrs]
+    rw [e1, scan_skip _ _ (delim_all_ws ind lvl), scan_inner udx ind (lvl + 1) d hwf.1,
+      scan_innerDtrs udx ind lvl ds' hwf.2]
+    simp [evsL]
+end
+
+/-- the lexical lemma: `_udf_re.finditer` on the serialization of a tree yields its event list -/
+theorem scan_tree (udx : Bool) (ind : Option Nat) (lvl : Nat) (t : Node) (hwf : WF t = true) :
+    scan (inner udx ind lvl t) = evs udx ind lvl t := by
+  have := scan_inner udx ind lvl t hwf []
+  have hnil : scan [] = [] := by rw [scan.eq_def]
+  simpa [hnil] using this
+
+/-! ### the top-level check is insensitive to erasing head marks and types -/
+
+theorem eraseHT_isRoot (t : Node) : (eraseHT t).isRoot = t.isRoot := by
+  cases t <;> simp [eraseHT, Node.isRoot]
+
+theorem eraseHT_isTerm (t : Node) : (eraseHT t).isTerm = t.isTerm := by
+  cases t <;> simp [eraseHT, Node.isTerm]
+
+theorem eraseHTL_anyRoot (ds : List Node) : (eraseHTL ds).any Node.isRoot = ds.any Node.isRoot := by
+  induction ds with
+  | nil => simp [eraseHTL]
+  | cons d ds ih => simp [eraseHTL, eraseHT_isRoot, ih]
+
+theorem topCheck_eraseHT (t : Node) (h : topCheck t = .ok t) : topCheck (eraseHT t) = .ok (eraseHT t) := by
+  cases t with
+  | term f ts => simpa [eraseHT] using h
+  | node i e sc st en hd ty ds =>
+    simp only [topCheck, Node.dtrs] at h
+    by_cases hany : ds.any Node.isRoot = true
+    · simp [hany] at h
+    · simp only [eraseHT, topCheck, Node.dtrs, eraseHTL_anyRoot, hany]
+      simp
+  | root e ds =>
+    simp only [topCheck, Node.dtrs] at h
+    by_cases hany : ds.any Node.isRoot = true
+    · simp [hany] at h
+    · cases ds with
+      | nil => simp at h
+      | cons d ds' =>
+        cases ds' with
+        | cons d2 ds'' => simp [hany] at h
+        | nil =>
+          by_cases hterm : d.isTerm = true
+          · simp [hany, hterm] at h
+          · have hr : (eraseHT d).isRoot = false := by
+              rw [eraseHT_isRoot]; simpa using hany
+            simp [eraseHT, eraseHTL, topCheck, Node.dtrs, hr, eraseHT_isTerm, hterm]
+
+theorem topCheck_view (udx : Bool) (t : Node) (h : topCheck t = .ok t) :
+    topCheck (view udx t) = .ok (view udx t) := by
+  cases udx with
+  | true => exact h
+  | false => exact topCheck_eraseHT t h
 
 end Verif.C16
